@@ -126,9 +126,19 @@ def _index(items, path=()):
     for it in items:
         if it['k'] == 'ns':
             out.update(_index(it['items'], path + (it['name'],)))
-        elif it['k'] in ('class', 'func', 'decl'):
+        elif it['k'] in ('class', 'decl'):
             out.setdefault((path, it['k'], it['name'], it['cpp']), it)
+        elif it['k'] == 'func':
+            # overloads of one function template share name and spelling: keep all of them
+            out.setdefault((path, it['k'], it['name'], it['cpp']), []).append(it)
     return out
+
+
+def _sub_multiset(sub, full):
+    import json
+    a = collections.Counter(json.dumps(x, sort_keys=True) for x in sub)
+    b = collections.Counter(json.dumps(x, sort_keys=True) for x in full)
+    return not (a - b)
 
 
 def _pybind_blocks(tree):
@@ -234,13 +244,18 @@ def check(case):
             out.append(Failure('C13.sublist-missing', '%s %s exists with the sublist but not '
                                'with the full list' % (key[1], key[2])))
             continue
+        bk = (key[1], key[2], key[3])
+        if key[1] == 'func':
+            if not _sub_multiset(it2, it1):
+                out.append(Failure('C13.sublist-differs', 'func %s differs between full list '
+                                   'and sublist' % key[2]))
+            if not _sub_multiset(b2.get(bk) or [], b1.get(bk) or []):
+                out.append(Failure('C13.sublist-pybind', 'pybind binding of %s differs' % key[2]))
+            continue
         same = _contained(it2, it1) if it1['k'] == 'class' else it1 == it2
         if not same:
             out.append(Failure('C13.sublist-differs', '%s %s differs between full list and '
                                'sublist' % (key[1], key[2])))
-        bk = (key[1], key[2], key[3])
-        if it1['k'] == 'func' and b1.get(bk) != b2.get(bk):
-            out.append(Failure('C13.sublist-pybind', 'pybind binding of %s differs' % key[2]))
         if it1['k'] == 'class' and it1 == it2 and b1.get(bk) != b2.get(bk):
             out.append(Failure('C13.sublist-pybind', 'pybind block of %s differs: %s' % (
                 key[2], _first_diff(b1.get(bk) or '', b2.get(bk) or ''))))
